@@ -6,6 +6,7 @@ pub mod c09;
 pub mod c10;
 pub mod c11;
 pub mod c12;
+pub mod c07_proc;
 pub mod c12_tls;
 pub mod c13;
 pub mod c14;
